@@ -91,6 +91,8 @@ fn main() {
             write!(out, "{v}").unwrap();
         }
         writeln!(out).unwrap();
+        // flush per answer: after an abort (allocation failure) the answers so far must not be lost
+        out.flush().unwrap();
     }
     out.flush().unwrap();
 }
